@@ -261,6 +261,11 @@ func ratSqrt(r *big.Rat) (*big.Rat, bool) {
 
 // casApply: f(args) with the rewrite rules above.
 func casApply(f string, args ...*casPoly) *casPoly {
+	for i, a := range args {
+		if a == nil {
+			args[i] = casAtom("?")
+		}
+	}
 	inner := func(p *casPoly, g string) (*casPoly, bool) {
 		// p is exactly the atom g(<x>): return x's string is not enough, so atoms of
 		// applications carry their argument in casArgs
@@ -431,6 +436,18 @@ func ratOfConst(v constant.Value) (*big.Rat, bool) {
 
 func (ce *casEval) expr(env *casEnv, e ast.Expr) *casPoly {
 	info := env.info
+	// a constant expression that does not involve π is its exact rational value
+	if tv, ok := info.Types[e]; ok && tv.Value != nil {
+		_, isLit := ast.Unparen(e).(*ast.BasicLit)
+		_, isId := ast.Unparen(e).(*ast.Ident)
+		_, isSel := ast.Unparen(e).(*ast.SelectorExpr)
+		// (a named constant is read through its definition: at a use site its value is already rounded to the operand type)
+		if !isLit && !isId && !isSel && !ce.mentionsNamedConst(info, e) {
+			if r, ok := ratOfConst(tv.Value); ok {
+				return casConst(r)
+			}
+		}
+	}
 	switch x := ast.Unparen(e).(type) {
 	case *ast.BasicLit:
 		if tv, ok := info.Types[x]; ok && tv.Value != nil {
@@ -498,8 +515,10 @@ func (ce *casEval) expr(env *casEnv, e ast.Expr) *casPoly {
 			return ce.fail("call %s", types.ExprString(x.Fun))
 		}
 		var args []*casPoly
-		for _, a := range x.Args {
-			args = append(args, ce.expr(env, a))
+		if callee.Pkg().Path() == "math" || ce.opaque[callee] {
+			for _, a := range x.Args {
+				args = append(args, ce.expr(env, a))
+			}
 		}
 		if callee.Pkg().Path() == "math" {
 			if callee.Name() == "Pow" && len(args) == 2 {
@@ -522,7 +541,7 @@ func (ce *casEval) expr(env *casEnv, e ast.Expr) *casPoly {
 			return casApply(callee.Pkg().Name()+"."+callee.Name()+"#0", args...)
 		}
 		if ce.p.IsRepoPkg(callee.Pkg()) {
-			res := ce.fn(callee, args)
+			res := ce.callFn(env, x, callee)
 			if len(res) >= 1 {
 				return res[0]
 			}
@@ -652,18 +671,19 @@ func (ce *casEval) stmts(env *casEnv, list []ast.Stmt, results []types.Object, f
 				}
 				callee, _ := typeutil.Callee(env.info, call).(*types.Func)
 				var res []*casPoly
-				var cargs []*casPoly
-				for _, a := range call.Args {
-					cargs = append(cargs, ce.expr(env, a))
-				}
-				if callee != nil && callee.Pkg() != nil && callee.Pkg().Path() == "math" && callee.Name() == "Sincos" && len(cargs) == 1 {
-					res = []*casPoly{casApply("sin", cargs[0]), casApply("cos", cargs[0])}
+				if callee != nil && callee.Pkg() != nil && callee.Pkg().Path() == "math" && callee.Name() == "Sincos" && len(call.Args) == 1 {
+					a0 := ce.expr(env, call.Args[0])
+					res = []*casPoly{casApply("sin", a0), casApply("cos", a0)}
 				} else if callee != nil && ce.opaque[callee] {
+					var cargs []*casPoly
+					for _, a := range call.Args {
+						cargs = append(cargs, ce.expr(env, a))
+					}
 					for k := range s.Lhs {
 						res = append(res, casApply(fmt.Sprintf("%s.%s#%d", callee.Pkg().Name(), callee.Name(), k), cargs...))
 					}
 				} else if callee != nil && ce.p.IsRepoPkg(callee.Pkg()) {
-					res = ce.fn(callee, cargs)
+					res = ce.callFn(env, call, callee)
 				}
 				if len(res) != len(s.Lhs) {
 					ce.fail("tuple call %s", types.ExprString(call.Fun))
@@ -873,4 +893,111 @@ func casAtomStruct(path string, t types.Type, depth int) *casStruct {
 		}
 	}
 	return out
+}
+
+// callFn: a call of a straight-line repository function whose parameters may be structs.
+func (ce *casEval) callFn(env *casEnv, call *ast.CallExpr, callee *types.Func) []*casPoly {
+	fd, pkg := ce.p.Decl(callee), ce.p.DeclPkg(callee)
+	if fd == nil || fd.Body == nil || ce.depth > 6 {
+		ce.fail("no body for %s", callee.Name())
+		return nil
+	}
+	nenv := &casEnv{info: pkg.TypesInfo, vars: map[types.Object]*casPoly{}, tup: map[types.Object][]*casPoly{}, structs: map[types.Object]*casStruct{}}
+	if sel, ok := ast.Unparen(call.Fun).(*ast.SelectorExpr); ok && fd.Recv != nil && len(fd.Recv.List) > 0 && len(fd.Recv.List[0].Names) > 0 {
+		ro := pkg.TypesInfo.Defs[fd.Recv.List[0].Names[0]]
+		if isStructType(ro.Type()) {
+			if rv := ce.structOf(env, sel.X); rv != nil {
+				nenv.structs[ro] = rv
+			}
+		} else {
+			nenv.vars[ro] = ce.expr(env, sel.X)
+		}
+	}
+	i := 0
+	for _, fl := range fd.Type.Params.List {
+		for _, nm := range fl.Names {
+			if i < len(call.Args) {
+				o := pkg.TypesInfo.Defs[nm]
+				if isStructType(o.Type()) {
+					sv := ce.structOf(env, call.Args[i])
+					if sv == nil {
+						ce.fail("struct argument %s of %s", types.ExprString(call.Args[i]), callee.Name())
+					}
+					nenv.structs[o] = sv
+				} else if b, ok := o.Type().Underlying().(*types.Basic); ok && b.Info()&types.IsNumeric != 0 {
+					nenv.vars[o] = ce.expr(env, call.Args[i])
+				}
+			}
+			i++
+		}
+	}
+	var results []types.Object
+	if fd.Type.Results != nil {
+		for _, fl := range fd.Type.Results.List {
+			for _, nm := range fl.Names {
+				o := pkg.TypesInfo.Defs[nm]
+				results = append(results, o)
+				nenv.vars[o] = casInt(0)
+			}
+		}
+	}
+	ce.depth++
+	defer func() { ce.depth-- }()
+	return ce.stmts(nenv, fd.Body.List, results, callee.Name())
+}
+
+// mentionsPi: the constant expression refers (through repository constants) to math.Pi.
+func (ce *casEval) mentionsPi(info *types.Info, e ast.Expr, depth int) bool {
+	found := false
+	ast.Inspect(e, func(n ast.Node) bool {
+		id, ok := n.(*ast.Ident)
+		if !ok || found {
+			return !found
+		}
+		k, ok := info.ObjectOf(id).(*types.Const)
+		if !ok || k.Pkg() == nil {
+			return true
+		}
+		if k.Pkg().Path() == "math" && k.Name() == "Pi" {
+			found = true
+			return false
+		}
+		if ce.p.IsRepoPkg(k.Pkg()) && depth < 6 {
+			if pp := ce.p.ByPath[k.Pkg().Path()]; pp != nil {
+				for _, f := range pp.Syntax {
+					for _, d := range f.Decls {
+						gd, ok := d.(*ast.GenDecl)
+						if !ok || gd.Tok != token.CONST {
+							continue
+						}
+						for _, sp := range gd.Specs {
+							vs := sp.(*ast.ValueSpec)
+							for i, nm := range vs.Names {
+								if pp.TypesInfo.Defs[nm] == k && i < len(vs.Values) && ce.mentionsPi(pp.TypesInfo, vs.Values[i], depth+1) {
+									found = true
+								}
+							}
+						}
+					}
+				}
+			}
+		}
+		return true
+	})
+	return found
+}
+
+// mentionsNamedConst: the expression refers to a declared constant (whose exact
+// value must be taken from its definition, not from the typed use site).
+func (ce *casEval) mentionsNamedConst(info *types.Info, e ast.Expr) bool {
+	found := false
+	ast.Inspect(e, func(n ast.Node) bool {
+		if id, ok := n.(*ast.Ident); ok {
+			if _, isConst := info.ObjectOf(id).(*types.Const); isConst {
+				found = true
+			}
+		}
+		return !found
+	})
+	return found
 }
